@@ -65,10 +65,23 @@ class Facts(object):
         self.names = list(names)       # parameter names of the callable (incl. instance)
         self.cats = cats or {}         # name -> category of the other parameters
 
+    forced_pointer = False
+
     @property
     def pointerish(self):
-        """Is the C value a pointer (function pointers and gpointer included)?"""
-        return self.depth >= 1 or self.cat in ('any', 'callback', 'dnotify')
+        """Is the value a pointer (function pointers and gpointer included)?"""
+        return self.forced_pointer or self.depth >= 1 or self.cat in ('any', 'callback', 'dnotify')
+
+    def overridden(self, cat):
+        """The same site after a (type T) override that changes the kind of the value: "override the parsed
+        C type with given type" - the overridden type is the value's type for validity purposes."""
+        f = Facts(self.callable, self.part, cat, self.depth, self.names, self.cats)
+        f.forced_pointer = True          # every category in OVERRIDE_CAT is a pointer-like value
+        return f
+
+
+# (type T) menu entries that change the kind of the value -> category of the overridden value
+OVERRIDE_CAT = {'FooRec': 'rec', 'GObject.Object': 'object', 'utf8': 'str', 'GLib.List(utf8)': 'list'}
 
 
 def facts_of(case):
@@ -137,6 +150,13 @@ def validity(name, opts, F, eff_dir, others):
     ret = F.part == 'ret'
     out_param = (not ret) and eff_dir in ('out', 'inout')
     type_over = 'type' in others
+    if type_over and name in ('transfer', 'nullable', 'allow-none'):
+        t = others['type'][0] if len(others['type']) == 1 else None
+        if t in OVERRIDE_CAT:
+            F = F.overridden(OVERRIDE_CAT[t])
+            type_over = False
+        elif t == 'gint' and F.cat in ('int', 'enum') and F.depth == 0:
+            type_over = False            # an integer stays an integer
     if name == 'transfer':
         mode = opts[0]
         if mode == 'floating':
@@ -314,6 +334,7 @@ class Exp(object):
         self.warn = {}            # annotation text -> 'M' | 'N' | 'U'
         self.warn_pos = {}        # annotation text -> must the position be the site line?
         self.others = {}          # parameter name -> {attr: expectation}; unlisted attrs = baseline
+        self.eff_dir = None
         self.fatal = 'N'          # 'M' the scan must fail with a logged error, 'N' must not, 'U'
         self.nontrivial = False
 
@@ -322,10 +343,11 @@ def elem_name(t):
     return TYPE_NAMES.get(t)
 
 
-def predict(case, B, index_of, label=None):
+def predict(case, B, index_of, label=None, inherit_dir=None):
     """B: {'attrs': {...}, 'type': dumped type element, 'attributes': [(k, v)...]} of the baseline site.
     index_of(name) -> position of the parameter in the emitted <parameter> list of this callable
     (None if it is not there, e.g. the instance parameter)."""
+    case = dict(case, anns=[a for a in case['anns'] if not a.startswith('@')])
     F = facts_of(case)
     e = Exp()
     parsed = [G.parse_ann(a) for a in case['anns']]
@@ -383,10 +405,19 @@ def predict(case, B, index_of, label=None):
                         ca = M('1')
                     elif o == ['callee-allocates']:
                         ca = M('0')
-                    elif F.cat == 'rec' and 'type' not in byname:
+                    elif F.callable == 'signal' and 'type' in byname:
+                        pass      # signal parameters have no C spelling whose indirection could be counted
+                    elif (F.cat == 'rec' and 'type' not in byname) or byname.get('type') == ['FooRec']:
                         # "(out) automatically infers this from ... double indirection / single
-                        # indirection on a structure parameter"
-                        ca = M('1') if F.depth == 1 else M('0')
+                        # indirection on a structure parameter"; a (type) override to a structure makes it one
+                        ca = M('1') if F.depth < 2 else M('0')
+    inherited_inout = False
+    if inherit_dir is not None and param:
+        # this parameter is the length of an array: "An array length annotation also makes the named length
+        # parameter follow the array's direction" - its own annotations are judged with that direction
+        eff_dir = inherit_dir if not dir_keys else 'U'
+        inherited_inout = eff_dir == 'inout'
+    e.eff_dir = eff_dir
     dir_changed = param and eff_dir != b_dir
 
     val = {}
@@ -417,7 +448,7 @@ def predict(case, B, index_of, label=None):
         if ret_dir_ann and type_over:
             return U          # an (invalid) direction on a return value next to a type override
         if dir_changed:
-            if eff_dir == 'U' or F.cat in ('callback', 'dnotify'):
+            if eff_dir == 'U' or F.cat in ('callback', 'dnotify') or inherited_inout:
                 return U
             if eff_dir == 'in':
                 return M('none')
